@@ -34,6 +34,9 @@ def window(shape, mod_shape, y0, x0):
 def shape_from_bbox(model, bbox_factor=None):
     """(ny, nx) = ceil of the extents of the model's bounding box (the rule the
     documentation gives for model_shape=None: 'the bounding box of the model will be used')."""
+    foot = image_model_footprint(model)
+    if foot is not None:
+        return int(np.ceil(foot[0])), int(np.ceil(foot[1]))
     bbox = None
     if bbox_factor is not None:
         try:
@@ -44,6 +47,21 @@ def shape_from_bbox(model, bbox_factor=None):
         bbox = model.bounding_box.bounding_box()
     (ylo, yhi), (xlo, xhi) = bbox
     return int(np.ceil(yhi - ylo)), int(np.ceil(xhi - xlo))
+
+
+def image_model_footprint(model):
+    """(extent_y, extent_x) in image pixels of an image-based PSF model (ImagePSF, GriddedPSFModel), derived by the
+    harness from the documented meaning of the arrays: the ePSF image of (ny, nx) oversampled pixels with integer
+    oversampling factors in (y, x) order covers ny/oversampling_y by nx/oversampling_x image pixels around the
+    centre.  Independent of the model's own bounding_box code.  None for other models."""
+    data = getattr(model, 'data', None)
+    ovs = getattr(model, 'oversampling', None)
+    if not isinstance(data, np.ndarray) or ovs is None or data.ndim not in (2, 3):
+        return None
+    ovs = np.atleast_1d(np.asarray(ovs, dtype=float))
+    oy, ox = (ovs[0], ovs[0]) if ovs.size == 1 else (ovs[0], ovs[1])
+    ny, nx = data.shape[-2:]
+    return ny / oy, nx / ox
 
 
 def _split(v):
@@ -209,6 +227,12 @@ def selftest():
     o = render((7, 7), model, rows_u, 'x_mean', 'y_mean')
     assert o['unit'] == u.Jy and abs(o['values'][3, 3] - 3.0) < 1e-15 and o['values'][0, 0] == 0
 
+    # footprint of image-based models (synthetic stand-in: only the documented attributes are used)
+    class _Img:
+        data = np.zeros((3, 17, 25))
+        oversampling = np.array([2, 4])
+    assert image_model_footprint(_Img()) == (8.5, 6.25) and shape_from_bbox(_Img()) == (9, 7)
+    assert image_model_footprint(Gaussian2D()) is None
     # bounding-box rule
     assert shape_from_bbox(Gaussian2D(1, 0, 0, 1.0, 2.0, 0.0)) == (22, 11)
     assert shape_from_bbox(Gaussian2D(1, 0, 0, 1.0, 2.0, 0.0), bbox_factor=2) == (8, 4)
